@@ -189,14 +189,14 @@ func EvalTwice(f *Forest, src string, res []fhir.Resource, copts []fhirpath.Comp
 // state was changed by the evaluations in between) and crossDiffers (the reused expression disagrees on B with a fresh
 // one: something of the first evaluation - variable values, the resource, a cached descriptor - was kept).
 func EvalCross(f *Forest, src string, resA []fhir.Resource, optsA func() []fhirpath.EvaluateOption,
-	resB []fhir.Resource, optsB func() []fhirpath.EvaluateOption) (Outcome, Outcome, bool, bool) {
-	var outA, outA2, outB, outBfresh Outcome
+	resB []fhir.Resource, optsB func() []fhirpath.EvaluateOption) (Outcome, Outcome, bool, bool, bool) {
+	var outA, outA2, outB, outBfresh, outALate Outcome
 	rep := SafeRetry(func() {
-		outA, outA2, outB, outBfresh = nil, nil, nil, nil
+		outA, outA2, outB, outBfresh, outALate = nil, nil, nil, nil, nil
 		e, err := fhirpath.Compile(src)
 		if err != nil {
 			outA = ErrOutcome("cerr", err)
-			outA2, outB, outBfresh = outA, outA, outA
+			outA2, outB, outBfresh, outALate = outA, outA, outA, outA
 			return
 		}
 		run := func(x *fhirpath.Expression, res []fhir.Resource, opts func() []fhirpath.EvaluateOption) Outcome {
@@ -206,7 +206,21 @@ func EvalCross(f *Forest, src string, resA []fhir.Resource, optsA func() []fhirp
 			}
 			return OkOutcome(f.ProjectCollection(c))
 		}
-		outA = run(e, resA, optsA)
+		// the collection the first evaluation returned is KEPT by the caller and projected again after the later
+		// evaluations: a result is the caller's, no later call may write into it (a pooled or shared buffer would)
+		keptA, errA := e.Evaluate(resA, optsA()...)
+		if errA != nil {
+			outA = ErrOutcome("err", errA)
+		} else {
+			outA = OkOutcome(f.ProjectCollection(keptA))
+		}
+		defer func() {
+			if errA != nil {
+				outALate = outA
+			} else {
+				outALate = OkOutcome(f.ProjectCollection(keptA))
+			}
+		}()
 		outB = run(e, resB, optsB)
 		outA2 = run(e, resA, optsA)
 		fresh, err := fhirpath.Compile(src)
@@ -217,12 +231,12 @@ func EvalCross(f *Forest, src string, resA []fhir.Resource, optsA func() []fhirp
 		outBfresh = run(fresh, resB, optsB)
 	})
 	if rep.Timeout {
-		return TimeoutOutcome(), TimeoutOutcome(), false, false
+		return TimeoutOutcome(), TimeoutOutcome(), false, false, false
 	}
 	if rep.Panic != "" {
-		return PanicOutcome(rep), PanicOutcome(rep), false, false
+		return PanicOutcome(rep), PanicOutcome(rep), false, false, false
 	}
-	return outA, outB, !SameOutcome(outA, outA2), !SameOutcome(outB, outBfresh)
+	return outA, outB, !SameOutcome(outA, outA2), !SameOutcome(outB, outBfresh), outALate != nil && !SameOutcome(outA, outALate)
 }
 
 // SameOutcome compares two projected outcomes structurally (through their JSON form).
